@@ -887,6 +887,11 @@ class CeiloChunk(AbstractChunk):
             # What are the valid points ?
             valids = tmp['height'].notna() * valids
 
+            # A bundle left with a single hit cannot be clustered (see find_slices()).
+            # Its hit will inherit its slice id below.
+            if len(valids[valids]) < 2:
+                continue
+
             # Run the clustering
             nlabels, labels = cluster.clusterize(
                 tmp[['dt', 'height']][valids].to_numpy(), algo='agglomerative',
